@@ -270,6 +270,17 @@ func (w *world) splitSource(t string) (int, string, bool) {
 	return 0, "", false
 }
 
+// printed is the form in which the library prints the remote source text t:
+// the other spelling of a package address gives way to the one that prints.
+func (w *world) printed(t string) string {
+	for pi := range w.sc.Pkgs {
+		if a := w.sc.Pkgs[pi].AltBase; a != "" && (t == a || strings.HasPrefix(t, a+"//") || strings.HasPrefix(t, a+"?")) {
+			return w.sc.Pkgs[pi].Base + t[len(a):]
+		}
+	}
+	return t
+}
+
 func (w *world) regIndex(addr string) int {
 	for i := range w.sc.Regs {
 		if w.sc.Regs[i].Addr == addr {
